@@ -416,6 +416,10 @@ pub fn one_scenario(rep: &Report, idx: usize, sc: &Scenario, tier: Tier, max_wri
 /// Re-run on an arbitrary file content: scan with the real FixedSize chunker (all
 /// identities have size `s`), reorder in place, supply the rest, resize.
 fn lib_rerun(l: &Layout, bytes: Vec<u8>, s: usize, fault: WriteFault) -> Result<(Vec<u8>, bool), String> {
+    crate::util::catch(|| lib_rerun_inner(l, bytes, s, fault)).and_then(|x| x)
+}
+
+fn lib_rerun_inner(l: &Layout, bytes: Vec<u8>, s: usize, fault: WriteFault) -> Result<(Vec<u8>, bool), String> {
     let bcfg = bitar::chunker::Config::FixedSize(s);
     let mf = MemFile::new(bytes.clone()).with_fault(fault);
     let mut out = bitar::CloneOutput::new(mf, l.target_index());
@@ -604,7 +608,7 @@ pub fn run(tier: Tier, seed: u64) -> i32 {
     });
     let mut ready: Vec<Prepared> = Vec::new();
     let report_v = |i: usize, sc: &Scenario, why: String, fault: Value| {
-        let class: String = why.split(':').next().unwrap_or("").chars().filter(|c| !c.is_ascii_digit() && *c != '#').take(60).collect();
+        let class: String = why.split([':', '(']).next().unwrap_or("").chars().filter(|c| !c.is_ascii_digit() && *c != '#').take(60).collect();
         rep.violation(
             &format!("c05/process/{}/{}", sc.out_kind.name(), class.trim()),
             json!({"why": why, "fault": fault, "scenario": sc.to_json(), "work_dir": format!("/verif/.work/C05/c{}", i)}),
